@@ -7,6 +7,7 @@ import (
 	"sort"
 	"sync/atomic"
 	"syscall"
+	"time"
 
 	"bazil.org/fuse"
 )
@@ -78,8 +79,12 @@ type Conn struct {
 	Mode       string
 	PageSize   uint32
 	SectorSize uint32
-	KeepJFD    bool  // keep the journal descriptor open between transactions (PERSIST/TRUNCATE)
-	T          *Tape // choice source of this connection (the run's tape, or an actor's fork)
+	KeepJFD    bool // keep the journal descriptor open between transactions (PERSIST/TRUNCATE)
+	// PauseAfterWalRead: simulated time a WAL write transaction spends as a
+	// reader before it takes the write lock (a deferred transaction that reads
+	// first). Other actors run in between.
+	PauseAfterWalRead time.Duration
+	T                 *Tape // choice source of this connection (the run's tape, or an actor's fork)
 
 	dbf   *File
 	jf    *File
@@ -180,12 +185,19 @@ func fillPage(p []byte, off int, conn, tx int, pgno uint32, salt uint32) {
 	binary.BigEndian.PutUint32(p[off+8:], uint32(tx))
 	binary.BigEndian.PutUint32(p[off+12:], pgno)
 	binary.BigEndian.PutUint32(p[off+16:], salt)
-	x := uint64(conn)<<48 ^ uint64(tx)<<24 ^ uint64(pgno) ^ uint64(salt)<<13 ^ 0x9e3779b97f4a7c15
+	// The fill must not be linear over GF(2) in the stamp fields: LiteFS's
+	// database checksum is an XOR of CRCs (affine), and with an xorshift fill
+	// seeded by an XOR of the fields two pages rewritten by another connection
+	// cancel each other out of every checksum (seen: a mixed snapshot passed
+	// LiteFS's own verification and the from-scratch oracle). splitmix64.
+	x := uint64(conn)*0x9e3779b97f4a7c15 + uint64(tx)*0xbf58476d1ce4e5b9 + uint64(pgno)*0x94d049bb133111eb + uint64(salt)*0xd6e8feb86659fd93
 	for i := off + 20; i < len(p); i++ {
-		x ^= x << 13
-		x ^= x >> 7
-		x ^= x << 17
-		p[i] = byte(x >> 32)
+		x += 0x9e3779b97f4a7c15
+		z := x
+		z = (z ^ (z >> 30)) * 0xbf58476d1ce4e5b9
+		z = (z ^ (z >> 27)) * 0x94d049bb133111eb
+		z ^= z >> 31
+		p[i] = byte(z >> 24)
 	}
 }
 
